@@ -113,6 +113,14 @@ CLAIMED['C19'] = dict(design='2/C19', text='QplibFile::from_lines (FileCursor he
     'non-numbers, premature EOF and oversized counts are reported as errors.',
     note='Lexing modelled as in C17; 2 variables x 2 constraints (property: 5 x 4); one defect repaired by a fix: commit (diagonal of Q not halved); three panics on malformed index/value '
     'tokens are recorded as known findings and printed as KNOWN-FINDING.')
+CLAIMED['C07'] = dict(design='2/C07', text='The prost-derive output of all 31 message types (encode_raw, merge_field, clear, Default, the oneof encode/merge and their closures) and of the 5 enum types '
+    '(try_from, is_valid, as_str_name, from_str_name, typed getters/setters) is executed from the MIR of rust/ommx with prost::encoding::* modelled as emitting/consuming abstract wire records '
+    '(field number, wire type, kind, payload). Against the grammar parsed independently from proto/ommx/v1/*.proto and with the scalar leaves of the message under test as solver variables '
+    '(u64/i64 64-bit, enum numbers over all of i32, bool, real or infinite double), z3 proves per presence pattern: the emitted records are exactly what the schema prescribes (numbers, wire types, '
+    'kinds, labels, oneof arms, map entries, proto3 default omission), decoding them gives back the message, two layouts of a foreign conforming encoding (reordered, unpacked/packed mix, explicit defaults, '
+    'unknown fields of every wire type) decode to the same content with only unknown fields skipped, clear() and Default are the empty message, and enum numbers/names equal the schema tables.',
+    note='Byte-level coding (varints, length prefixes, UTF-8) lives in the external prost/bytes crates and is trusted; the record model is compared byte-for-byte with prost on concrete messages of every type each run. '
+    'Outside the claim: the Python bindings and the generators (not Rust code this engine executes), readability of old archives beyond schema equality, NaN/-0.0 payloads, encoded_len, full cross products of presence patterns.')
 NOT_APPLICABLE = {
     'C20': 'artifact round-trip lives in ocipkg/tar/sha2/serde_json/chrono and the file system: none of it is in the crate MIR and all of it is foreign/IO under Kani; a model would verify the model, not the code',
 }
